@@ -81,7 +81,29 @@ func ValidateServices(i Input) error {
 		}
 		errs = append(errs, grouperror.Prefix(fmt.Sprintf("%+q: ", n), sErrs...))
 	}
+	errs = append(errs, validateUniqueGetters(i.Services)...)
 	return grouperror.Prefix("services: ", errs...)
+}
+
+// validateUniqueGetters reports getters used by more than one service,
+// each getter is a method of the generated container, so it has to be unique.
+func validateUniqueGetters(services map[string]Service) []error {
+	getters := make(map[string][]string)
+	for _, n := range maps.Keys(services) {
+		s := services[n]
+		if s.Getter == nil || ptr.Dereference(s.Todo, DefaultServiceTodo) {
+			continue
+		}
+		getters[*s.Getter] = append(getters[*s.Getter], n)
+	}
+
+	var errs []error
+	for _, g := range maps.Keys(getters) {
+		if len(getters[g]) > 1 {
+			errs = append(errs, fmt.Errorf("getter %+q is used by more than one service: %+q", g, getters[g]))
+		}
+	}
+	return errs
 }
 
 func ValidateServiceName(n string) error {
@@ -119,6 +141,9 @@ func init() {
 	for i := 0; i < r.NumMethod(); i++ {
 		reservedGetters[r.Method(i).Name] = true
 	}
+	// the generated container embeds *container.Container,
+	// a method must not have the same name as the embedded field
+	reservedGetters[r.Elem().Name()] = true
 }
 
 func ValidateServiceGetter(s Service) error {
